@@ -31,9 +31,27 @@ impl Check for C04 {
                 let aad = bytes_of_len(ctx, la);
                 let payload = bytes_of_len(ctx, lp);
                 c04_case(ctx, &p, &aad, &payload);
+                if ctx.rng.chance(1, 6) {
+                    // AAD / payload that is itself a MAC_structure over the same header
+                    let pb = crate::model::prot_slot(&p);
+                    let text = *ctx.rng.pick(&["MAC0", "MAC"]);
+                    let nested = crate::model::structure(text, &[&pb, &aad[..aad.len().min(40)], &payload[..payload.len().min(40)]]);
+                    c04_case(ctx, &p, &nested, &payload);
+                    c04_case(ctx, &p, &aad, &nested);
+                    ctx.count("self-referential-aad");
+                }
                 built_then_edited_case(ctx, "MAC_structure", &p, &aad, &payload);
                 let p1 = gen_prot_variant(ctx, Origin::Built);
                 reprotect_case(ctx, "MAC_structure", &p1, &p, &aad, &payload);
+                // two headers that differ only in the sign of a floating-point zero: the second
+                // `protected()` call must replace the first, and the structures must differ
+                if ctx.rng.chance(1, 4) {
+                    let (ha, hb) = zero_twins(ctx);
+                    let (pa, pb) = (MProt { bytes: None, header: ha }, MProt { bytes: None, header: hb });
+                    reprotect_case(ctx, "MAC_structure", &pa, &pb, &aad, &payload);
+                    c04_case(ctx, &pa, &aad, &payload);
+                    c04_case(ctx, &pb, &aad, &payload);
+                }
                 decoded_edited_keeping_bytes_case(ctx, "MAC_structure", &p, &aad, &payload);
                 ctx.sample(|| J::obj(vec![("protected", J::Str(format!("{:?}", p.bytes.as_ref().map(|b| crate::rcbor::hex(b))))), ("aad_len", J::UInt(la as u64)), ("payload_len", J::UInt(lp as u64)), ("outcome", J::s("all helper outputs equal the RFC 8152 MAC_structure; refusals without payload observed"))]));
             }
